@@ -242,6 +242,8 @@ def check(prop, tier, jobs, only_units=None, only_harness=None):
                 viols.append(rec)
         for x in r['undecided']:
             undecided.append('%s: %s' % (r['unit'], x))
+    if not results:
+        undecided.append('no unit ran (unit filter matched nothing)')
     wall = time.time() - t0
     evidence(prop, tier, results, viols, known, undecided, wall)
     for r in results:
